@@ -1,10 +1,511 @@
-//! Fault-injecting run modes of the sequential build.
+//! Fault-injecting run modes of the sequential build: F-crash, F-power, F-cut/F-flip, F-err,
+//! F-forge (DESIGN.md §2.3, §3).
 
-use crate::case::{Case, Mode, Outcome};
+use std::collections::{BTreeMap, BTreeSet};
+use std::panic::{catch_unwind, AssertUnwindSafe};
+use std::path::Path;
+
+use crate::case::{Case, CutSel, Mode, Outcome};
+use crate::decode;
+use crate::exec::{fail, panic_msg, Failure, Observed, World};
+use crate::gen::{Op, Workload};
+use crate::interpose::{self, with_sim};
 use crate::keys::SimKey;
+use crate::rng::{mix, Rng};
+use crate::seqrun::{finish_sim, fresh_dir, new_sim, remove_dir};
+use crate::sim::{Disk, Sim, Snap};
 
-pub fn run_mode<K: SimKey>(_case: &Case, mode: &Mode) -> Outcome {
+pub const OPEN_OP: u32 = 1_000_000;
+pub const CLOSE_OP: u32 = 1_000_001;
+
+pub fn run_mode<K: SimKey>(case: &Case, mode: &Mode) -> Outcome {
+    match mode {
+        Mode::Plain => unreachable!(),
+        Mode::Crash { cuts, depth, suffix_every, verify } => run_crash::<K>(case, cuts, *depth, *suffix_every, *verify, false),
+        Mode::Power { cuts } => run_crash::<K>(case, cuts, 1, 0, true, true),
+        Mode::LogDamage { budget, dseed } => crate::damage::run_log_damage::<K>(case, *budget, *dseed),
+        Mode::Err { site, errno, suffix_seed } => crate::errmode::run_err::<K>(case, site, *errno, *suffix_seed),
+        Mode::Forge { fseed, budget } => crate::forge::run_forge::<K>(case, *fseed, *budget),
+        Mode::Orphans { pseed } => crate::orphans::run_orphans::<K>(case, *pseed),
+        Mode::Procs { pseed } => crate::procs::run_procs(case, *pseed),
+        Mode::Conc(_) => {
+            let mut out = Outcome::default();
+            out.harness_error = Some("a concurrent case needs the conc build".into());
+            out
+        }
+    }
+}
+
+/// The traced main run shared by the image-based modes: executes the history with all fault-free
+/// oracles on, snapshots before every mutating call, and remembers the model before each op.
+pub struct Traced<K: SimKey> {
+    pub world: World<K>,
+    pub snaps: Vec<Snap>,
+    /// models[i] = model before op i; models[n] = final model
+    pub models: Vec<BTreeMap<K, usize>>,
+    pub failure: Option<Failure>,
+    pub sim: Sim,
+    pub base: std::path::PathBuf,
+}
+
+pub fn traced_run<K: SimKey>(case: &Case, out: &mut Outcome, snap: bool) -> Traced<K> {
+    let base = fresh_dir();
+    let mut sim = new_sim(&base, case, 1);
+    sim.snap_all = snap;
+    interpose::install(sim);
+    let wl = &case.workload;
+    let mut w = World::<K>::new(&base, wl);
+    let mut models = Vec::new();
+    let mut failure = None;
+    with_sim(|s| s.begin_op(OPEN_OP));
+    let r = w.open_checked(0);
+    with_sim(|s| {
+        s.end_op();
+        let Sim { mon, disk, .. } = s;
+        mon.ack(disk);
+    });
+    if let Err(f) = r {
+        failure = Some(f);
+    } else {
+        for (i, op) in wl.ops.iter().enumerate() {
+            models.push(w.model.clone());
+            if let Err(f) = w.step_checked(i, op) {
+                failure = Some(f);
+                break;
+            }
+            if with_sim(|s| s.mon.fatal() || s.harness_error.is_some()) {
+                break;
+            }
+            out.fingerprints.push(crate::seqrun::state_fp(&w));
+        }
+    }
+    models.push(w.model.clone());
+    w.readers.clear();
+    with_sim(|s| {
+        s.begin_op(CLOSE_OP);
+        s.mon.allowed.clear();
+    });
+    w.close();
+    with_sim(|s| {
+        s.end_op();
+        if snap {
+            s.take_final_snapshot();
+        }
+    });
+    let mut sim = interpose::uninstall().expect("sim");
+    let snaps = std::mem::take(&mut sim.snaps);
+    out.counters.runs = 1;
+    out.counters.ops = w.probes.ops;
+    out.probes = w.probes.clone();
+    Traced { world: w, snaps, models, failure, sim, base }
+}
+
+fn select_cuts(snaps: &[Snap], sel: &CutSel, n_ops: usize) -> Vec<usize> {
+    match sel {
+        CutSel::Steps(steps) => snaps.iter().enumerate().filter(|(_, s)| steps.contains(&s.step)).map(|(i, _)| i).collect(),
+        CutSel::All { max, sseed } => {
+            if snaps.len() <= *max as usize {
+                return (0..snaps.len()).collect();
+            }
+            // stratified: every boundary of the last three operations + a random sample
+            let mut pick: BTreeSet<usize> = BTreeSet::new();
+            let last_ops = n_ops.saturating_sub(3) as u32;
+            for (i, s) in snaps.iter().enumerate() {
+                if (s.op != OPEN_OP && s.op >= last_ops && s.op < OPEN_OP) || s.op == CLOSE_OP {
+                    pick.insert(i);
+                }
+            }
+            let mut rng = Rng::new(*sseed);
+            let mut guard = 0;
+            while pick.len() < *max as usize && guard < 10 * *max {
+                pick.insert(rng.below(snaps.len() as u64) as usize);
+                guard += 1;
+            }
+            pick.into_iter().take(*max as usize).collect()
+        }
+    }
+}
+
+/// the two models an image cut while `op` was in flight may legitimately show
+fn allowed_models<K: SimKey>(t: &Traced<K>, op: u32) -> Vec<BTreeMap<K, usize>> {
+    let n = t.models.len() - 1;
+    if op == OPEN_OP {
+        return vec![t.models[0].clone()];
+    }
+    if op == CLOSE_OP || op as usize >= n {
+        return vec![t.models[n].clone()];
+    }
+    let a = t.models[op as usize].clone();
+    let b = t.models[op as usize + 1].clone();
+    if a == b { vec![a] } else { vec![a, b] }
+}
+
+pub struct Judged<K: SimKey> {
+    pub world: World<K>,
+    pub sim: Sim,
+    pub base: std::path::PathBuf,
+    pub chosen: usize,
+}
+
+/// Materialise `disk` (with loss set), recover it with the real code, compare with the allowed
+/// models. On success returns the recovered world (still open) for follow-ups.
+#[allow(clippy::too_many_arguments)]
+pub fn judge_image<K: SimKey>(
+    wl: &Workload,
+    disk: &Disk,
+    lose: &BTreeSet<String>,
+    versions_seen: &BTreeMap<u64, [u8; 32]>,
+    allowed: &[BTreeMap<K, usize>],
+    verify: bool,
+    tag: &str,
+    props: &[&str],
+    snap_recovery: bool,
+    own: &str,
+) -> Result<Judged<K>, Failure> {
+    let base = fresh_dir();
+    disk.materialise(&base, lose).expect("materialise image");
+    let mut sim = Sim::new(&base, 7);
+    sim.disk = Disk::from_dir(&base).expect("read image back");
+    sim.mon.cas_immutable = true;
+    sim.mon.wal_wellformed = true;
+    sim.mon.no_dangling = false; // a crash image may hold records whose blobs recovery reports as missing; judged below
+    sim.mon.n = wl.cfg.n;
+    sim.mon.versions_seen = versions_seen.clone();
+    sim.mon.own = own.to_string();
+    sim.snap_all = snap_recovery;
+    interpose::install(sim);
+    let mut w = World::<K>::new(&base, wl);
+    w.cfg.scan = true;
+    w.cfg.verify = verify;
+    w.cfg.fail_on_integrity = false;
+    w.keep_stats = true;
+    w.exact_files = false;
+    // allowed logged states for the C20 monitor during recovery
+    let allowed_logged: Vec<_> = allowed.iter().map(|m| w.logged_of(m)).collect();
+    with_sim(|s| {
+        s.begin_op(OPEN_OP);
+        s.mon.allowed = allowed_logged;
+    });
+    let cfg = w.cfg.clone();
+    let finish = |w: &mut World<K>, f: Failure| -> Failure {
+        w.close();
+        let _ = interpose::uninstall();
+        remove_dir(&base);
+        f
+    };
+    let r = catch_unwind(AssertUnwindSafe(|| w.open_raw(&cfg)));
+    match r {
+        Err(p) => {
+            let f = fail(props, "recovery-panicked", 0, format!("{tag}: open_with_recover panicked: {}", panic_msg(p)));
+            return Err(finish(&mut w, f));
+        }
+        Ok(Err(e)) => {
+            let f = fail(props, "recovery-failed", 0, format!("{tag}: open_with_recover failed: {e} ({e:?})"));
+            return Err(finish(&mut w, f));
+        }
+        Ok(Ok(())) => {}
+    }
+    let obs = match w.observe_items() {
+        Ok(o) => o,
+        Err(e) => {
+            let f = fail(props, "recovered-state-unreadable", 0, format!("{tag}: {e}"));
+            return Err(finish(&mut w, f));
+        }
+    };
+    let mut chosen = None;
+    for (i, m) in allowed.iter().enumerate() {
+        w.model = m.clone();
+        if w.expected_observed().items == obs {
+            chosen = Some(i);
+            break;
+        }
+    }
+    let Some(chosen) = chosen else {
+        let want: Vec<_> = allowed
+            .iter()
+            .map(|m| {
+                w.model = m.clone();
+                crate::exec::brief_items(&w.expected_observed().items)
+            })
+            .collect();
+        let f = fail(props, "recovered-state", 0, format!("{tag}: recovered keys {:?} match none of the allowed states {:?}", crate::exec::brief_items(&obs), want));
+        return Err(finish(&mut w, f));
+    };
+    w.model = allowed[chosen].clone();
+    // full observable state incl. bytes, refcounts, stats (C03 + C12)
+    match w.observe() {
+        Ok(o) => {
+            let exp = w.expected_observed();
+            if o != exp {
+                let p2: Vec<&str> = if o.items == exp.items && o.bytes_hash == exp.bytes_hash { vec!["C12"] } else { props.to_vec() };
+                let f = fail(&p2, "recovered-observation", 0, format!("{tag}: after recovery: {}\nexpected: {}", crate::exec::brief_obs(&o), crate::exec::brief_obs(&exp)));
+                return Err(finish(&mut w, f));
+            }
+        }
+        Err(e) => {
+            let f = fail(props, "recovered-blob-unreadable", 0, format!("{tag}: {e}"));
+            return Err(finish(&mut w, f));
+        }
+    }
+    // the scan must be exact (C08) and report no missing / corrupted blob (C03)
+    if let Some(scan) = w.last_scan.clone() {
+        let exp = expected_scan(&w, verify);
+        if !scan.missing.is_empty() || !scan.corrupted.is_empty() {
+            let f = fail(props, "recovered-missing-or-corrupted", 0, format!("{tag}: recovery reports missing={} corrupted={} blobs", scan.missing.len(), scan.corrupted.len()));
+            return Err(finish(&mut w, f));
+        }
+        if scan != exp {
+            let f = fail(&["C08"], "scan-inexact", 0, format!("{tag}: scan = {scan:?}\nexpected {exp:?}"));
+            return Err(finish(&mut w, f));
+        }
+    }
+    let mv = with_sim(|s| s.mon.take_own());
+    if let Some(v) = mv {
+        let f = Failure { props: vec![v.property.clone()], class: format!("{}:{}", v.monitor, v.class), op_index: 0, message: format!("{tag}: during recovery, step {}: {}", v.step, v.message) };
+        return Err(finish(&mut w, f));
+    }
+    let sim = interpose::uninstall().expect("sim");
+    Ok(Judged { world: w, sim, base, chosen })
+}
+
+/// the checker's own comparison of the directory listing with the model (C08 oracle)
+pub fn expected_scan<K: SimKey>(w: &World<K>, verify: bool) -> crate::exec::ScanView {
+    let blobs = w.expected_blobs();
+    with_sim(|s| {
+        let mut v = crate::exec::ScanView::default();
+        let mut seen: BTreeSet<[u8; 32]> = BTreeSet::new();
+        for (p, node) in s.disk.list("db/cas/") {
+            let rel = &p["db/cas/".len()..];
+            let depth = rel.matches('/').count();
+            let lenient = parse_like_store(rel);
+            match (depth, lenient) {
+                (2, Some(h)) => {
+                    seen.insert(h);
+                    match blobs.get(&h) {
+                        None => {
+                            v.orphaned.insert(h);
+                        }
+                        Some((_, size)) => {
+                            if verify && (node.cache.len() as u64 != *size || blake3::hash(&node.cache).as_bytes() != &h) {
+                                v.corrupted.insert(h);
+                            }
+                        }
+                    }
+                }
+                _ => {
+                    v.invalid.insert(p.clone());
+                }
+            }
+        }
+        for h in blobs.keys() {
+            if !seen.contains(h) {
+                v.missing.insert(*h);
+            }
+        }
+        for (p, _) in s.disk.list("db/staging/") {
+            if p["db/staging/".len()..].matches('/').count() == 0 {
+                v.staging.insert(p.clone());
+            }
+        }
+        v.total_blobs = seen.len();
+        v
+    })
+}
+
+/// A file at depth 3 under cas/ is a blob iff its three components concatenate to 64 hex digits
+/// (this is the store's documented layout; upper-case digits and uneven splits are judged by the
+/// C08 planting mode, not here: crash images only ever contain names the store produced).
+fn parse_like_store(rel: &str) -> Option<[u8; 32]> {
+    decode::parse_cas_rel_path(rel)
+}
+
+fn run_crash<K: SimKey>(case: &Case, cuts: &CutSel, depth: u32, suffix_every: u32, verify: bool, power: bool) -> Outcome {
     let mut out = Outcome::default();
-    out.harness_error = Some(format!("mode not implemented: {mode:?}"));
+    let mut t = traced_run::<K>(case, &mut out, true);
+    let props: &[&str] = if power { &["C09"] } else { &["C03"] };
+    if let Some(f) = t.failure.take() {
+        out.violation = Some(f);
+    }
+    let mut sim = std::mem::replace(&mut t.sim, Sim::new(Path::new("/nonexistent"), 0));
+    finish_sim(&mut out, &mut sim, &t.base, true);
+    remove_dir(&t.base);
+    if out.violation.is_some() || out.harness_error.is_some() {
+        return out;
+    }
+    let wl = &case.workload;
+    let picks = select_cuts(&t.snaps, cuts, wl.ops.len());
+    if picks.len() == t.snaps.len() {
+        out.counters.exhaustive_cases += 1;
+    } else {
+        out.counters.sampled_cases += 1;
+    }
+    let mut rng = Rng::new(mix(wl.content_seed, 0xc7a5));
+    let mut judged = 0u32;
+    'cuts: for &si in &picks {
+        let snap = &t.snaps[si];
+        let allowed = allowed_models(&t, snap.op);
+        let step_s = if snap.step == u64::MAX { "final".to_string() } else { snap.step.to_string() };
+        let opname = if snap.op == OPEN_OP { "open".to_string() } else if snap.op == CLOSE_OP { "close".to_string() } else { format!("op#{} {}", snap.op, wl.ops.get(snap.op as usize).map_or("?".into(), |o| o.short())) };
+        // loss sets
+        let loss_sets: Vec<BTreeSet<String>> = if power {
+            let dirty = snap.disk.dirty_files();
+            let d = dirty.len();
+            let mut sets = Vec::new();
+            if d <= 4 {
+                for mask in 0..(1u32 << d) {
+                    sets.push(dirty.iter().enumerate().filter(|(i, _)| mask & (1 << i) != 0).map(|(_, p)| p.clone()).collect());
+                }
+            } else {
+                sets.push(BTreeSet::new());
+                sets.push(dirty.iter().cloned().collect());
+                for p in &dirty {
+                    sets.push([p.clone()].into_iter().collect());
+                }
+                for _ in 0..8 {
+                    sets.push(dirty.iter().filter(|_| rng.chance(1, 2)).cloned().collect());
+                }
+            }
+            sets
+        } else {
+            vec![BTreeSet::new()]
+        };
+        for lose in &loss_sets {
+            let tag = format!("cut={step_s} before {} {} during {opname}{}", snap.call.name(), snap.role, if power { format!(" lost={lose:?}") } else { String::new() });
+            if power {
+                out.counters.power_images += 1;
+            } else {
+                out.counters.crash_images += 1;
+            }
+            judged += 1;
+            let nested = depth > 1;
+            let j = match judge_image::<K>(wl, &snap.disk, lose, &snap.versions_seen, &allowed, verify, &tag, props, nested, &case.property) {
+                Ok(j) => j,
+                Err(mut f) => {
+                    f.op_index = if (snap.op as usize) < wl.ops.len() { snap.op as usize } else { wl.ops.len().saturating_sub(1) };
+                    out.violation = Some(f);
+                    break 'cuts;
+                }
+            };
+            out.fingerprints.push(mix(mix(si as u64, j.chosen as u64), crate::rng::mix_str(lose.len() as u64, &format!("{}{}{:?}", snap.call.name(), snap.role, allowed[j.chosen].len()))));
+            let Judged { mut world, mut sim, base, .. } = j;
+            let rec_snaps = std::mem::take(&mut sim.snaps);
+            let rec_versions = sim.mon.versions_seen.clone();
+            // usability of the recovered store (C03 second sentence)
+            let mut f2: Option<Failure> = None;
+            if suffix_every > 0 && judged % suffix_every == 0 {
+                out.counters.usability_suffixes += 1;
+                interpose::install(sim);
+                f2 = usability_suffix(&mut world, &mut rng, &tag).err();
+                world.readers.clear();
+                world.close();
+                sim = interpose::uninstall().expect("sim");
+                if f2.is_none() {
+                    if let Some(v) = sim.mon.take_own() {
+                        f2 = Some(Failure { props: vec![v.property], class: format!("{}:{}", v.monitor, v.class), op_index: 0, message: format!("{tag}: after recovery, step {}: {}", v.step, v.message) });
+                    }
+                }
+            } else {
+                interpose::install(sim);
+                world.close();
+                sim = interpose::uninstall().expect("sim");
+            }
+            if let Some(e) = sim.harness_error.take() {
+                out.harness_error = Some(e);
+            }
+            out.counters.mutating_calls += sim.step;
+            out.counters.events += sim.events;
+            remove_dir(&base);
+            if let Some(mut f) = f2 {
+                f.op_index = if (snap.op as usize) < wl.ops.len() { snap.op as usize } else { wl.ops.len().saturating_sub(1) };
+                out.violation = Some(f);
+                break 'cuts;
+            }
+            // nested crash: cut the recovery's own trace again
+            if nested && !rec_snaps.is_empty() {
+                for rs in &rec_snaps {
+                    out.counters.nested_images += 1;
+                    let tag2 = format!("{tag}; then cut2={} before {} {} during recovery", rs.step, rs.call.name(), rs.role);
+                    match judge_image::<K>(wl, &rs.disk, &BTreeSet::new(), &rec_versions, &allowed, verify, &tag2, props, false, &case.property) {
+                        Ok(j2) => {
+                            let Judged { mut world, sim, base, .. } = j2;
+                            interpose::install(sim);
+                            world.close();
+                            let _ = interpose::uninstall();
+                            remove_dir(&base);
+                        }
+                        Err(mut f) => {
+                            f.class = format!("nested-{}", f.class);
+                            f.op_index = if (snap.op as usize) < wl.ops.len() { snap.op as usize } else { wl.ops.len().saturating_sub(1) };
+                            out.violation = Some(f);
+                            break 'cuts;
+                        }
+                    }
+                }
+            }
+        }
+    }
     out
+}
+
+/// after a recovery: clean up orphans, then a few operations, a checkpoint, a clean reopen, all
+/// under the fault-free oracles (the model has adopted the recovered state)
+fn usability_suffix<K: SimKey>(w: &mut World<K>, rng: &mut Rng, tag: &str) -> Result<(), Failure> {
+    let wrap = |mut f: Failure| {
+        f.message = format!("{tag}: recovered store not usable: {}", f.message);
+        if !f.props.iter().any(|p| p == "C03") {
+            f.props.push("C03".into());
+        }
+        f
+    };
+    // C08 -> C07: after delete_orphans on an image without missing/corrupted blobs the exact-file-set oracle holds again
+    if let Some(st) = w.stats.take() {
+        let r = interpose::enter(|| st.delete_orphans());
+        interpose::enter(|| drop(st));
+        match r {
+            Ok(res) if res.errors.is_empty() => {}
+            Ok(res) => return Err(wrap(fail(&["C08"], "cleanup-errors", 0, format!("delete_orphans reported errors: {:?}", res.errors)))),
+            Err(e) => return Err(wrap(fail(&["C08"], "cleanup-failed", 0, format!("delete_orphans failed: {e}")))),
+        }
+        w.exact_files = true;
+        w.check_files(0).map_err(|mut f| {
+            f.props = vec!["C08".into(), "C07".into()];
+            wrap(f)
+        })?;
+    }
+    w.set_monitor_expectations = true;
+    let nk = w.keys.len();
+    let nc = w.contents.len();
+    let n = 2 + rng.below(4) as usize;
+    for i in 0..n {
+        let op = match rng.below(6) {
+            0 | 1 => Op::Put { k: rng.below(nk as u64) as usize, c: rng.below(nc as u64) as usize, chunks: vec![], abort: false },
+            2 => Op::Remove { k: rng.below(nk as u64) as usize },
+            3 => Op::Checkpoint,
+            4 => Op::Reopen,
+            _ => Op::Audit,
+        };
+        let op = match op {
+            Op::Put { k, c, .. } => Op::Put { k, c, chunks: vec![w.contents[c].len()], abort: false },
+            o => o,
+        };
+        w.step_checked(10_000 + i, &op).map_err(wrap)?;
+    }
+    w.step_checked(10_100, &Op::Checkpoint).map_err(wrap)?;
+    w.reopen(10_101).map_err(wrap)?;
+    w.audit(10_102).map_err(wrap)
+}
+
+impl<K: SimKey> World<K> {
+    /// keys + items only (no blob reads)
+    pub fn observe_items(&self) -> Result<Vec<(Vec<u8>, [u8; 32], u64)>, String> {
+        let cas = self.cas();
+        interpose::enter(|| {
+            let g = cas.read_index_state();
+            Ok(g.iter().map(|(k, it)| (k.kb(), it.blob_hash.0, it.blob_size)).collect())
+        })
+    }
+}
+
+pub fn observed_eq_model<K: SimKey>(w: &World<K>, o: &Observed) -> bool {
+    *o == w.expected_observed()
 }
